@@ -94,11 +94,23 @@ def run(prop, tier, seed, theorems, make_pairs, level_note, rule, n_pairs=None, 
                 if not hits and "ok" in eb.get("ep", {}):
                     seen.add(hashlib.sha1((json.dumps(v.job(), sort_keys=True) + str(i)).encode()).hexdigest())
                 for what, detail in hits[:1]:
+                    if what.startswith("KNOWN:"):
+                        cls = what.split(":")[1]
+                        kf = [f for f in check.load_known()["findings"] if f.get("property") == prop and f.get("class") == cls]
+                        if kf:
+                            msg = "%s [%s]" % (kf[0]["what"], kf[0]["id"])
+                            if msg not in R.known_hits:
+                                R.known_hits.append(msg)
+                            R.stats["known_" + cls] = R.stats.get("known_" + cls, 0) + 1
+                            continue
+                        what = what.split(":", 2)[2]
                     if len(R.violations) < 3:
                         payload = v.replay()
                         payload.update({"what": what + " [%s]" % label, "detail": detail, "base": base.replay(), "eval_index": i})
                         R.violations.append((what + " [%s]" % label, payload))
     R.distinct_nontrivial = len(seen)
+    if not labels or R.evaluations == 0:
+        R.harness_errors.append("no (base, variant) pair was evaluated")
     R.stats["pairs"] = {"bases": len(pairs), "variants": dict(labels)}
     if pairs:
         b0, v0 = pairs[0]
